@@ -1042,6 +1042,11 @@ fn sample_item(it: &ClassItem, rng: &mut Rng, out: &mut Vec<u32>) {
 
 /// Produce a string likely to match `n` (walk the AST choosing branches).
 pub fn sample(n: &Node, rng: &mut Rng, icase: bool, caps: &mut Vec<Option<Vec<u32>>>, out: &mut Vec<u32>) {
+    // haystacks are cut to 24 characters afterwards; back-references inside nested counted loops would
+    // otherwise make the sample grow exponentially
+    if out.len() > 64 {
+        return;
+    }
     match n {
         Node::Char(c) => out.push(if icase && rng.chance(1, 2) { swap_case(*c, rng) } else { *c }),
         Node::Dot => out.push(*rng.pick(ALPHABET)),
